@@ -34,6 +34,7 @@ static int cx[MAXTV], cy[MAXTV], ck[MAXTV]; // meaning of theory variable v: cx[
 // derived variables z_t = za*x + zb*y + zk created through lra_theory::new_var(lin) (rows with a constant term); a relation with extra >= 100 is over z_(extra-100)
 static const int ZT[4][3] = {{1, 0, 3}, {1, 1, -1}, {-1, 0, 2}, {2, -1, 1}};
 static int ntv;
+static size_t proot[16]; static int n_proot; // literals asserted at root level by the scenario itself (facts of the problem)
 static size_t n_defs; // clauses present before the history starts (definitions of conjunction variables)
 
 static inline bool lval(const lit &p) { return sign(p) ? a[variable(p)] : !a[variable(p)]; }
@@ -136,6 +137,24 @@ static void check_state(sat_core &s, lra_theory &th)
     else CHECK(!(link && defs) || sat, "(L) every learnt clause / explanation is valid under the meaning of the assertion literals and the root-level assignments");
     ci++;
   }
+  // (E0) root-level assignments are premises of (L) above and of (E) below, so they are checked on their own against the PROBLEM: definitional
+  // clauses, the scenario's clauses and root facts (a wrongly learnt unit clause shows up here and nowhere else)
+  {
+    bool prob = link;
+    ci = 0;
+    for (auto c : s.constrs)
+    {
+      if (ci >= n_defs) break;
+      clause *k = static_cast<clause *>(c);
+      bool sat = false;
+      for (auto &l : k->lits) sat = sat | lval(l);
+      prob = prob & sat; ci++;
+    }
+    for (int i = 0; i < n_proot; i++) prob = prob & lval(lit(proot[i] >> 1, proot[i] & 1));
+    for (size_t v = 1; v < s.assigns.size(); v++)
+      if (s.assigns[v] != Undefined && s.level[v] == 0)
+        CHECK(!prob || a[v] == (s.assigns[v] == True), "(E0) a root-level assignment is entailed by the problem's clauses, root facts and the meaning of the assertion literals");
+  }
   bool rest = true; // all stored clauses, root assignments and standing decisions
   for (auto c : s.constrs) { clause *k = static_cast<clause *>(c); bool sat = false; for (auto &l : k->lits) sat = sat | lval(l); rest = rest & sat; }
   for (size_t v = 1; v < s.assigns.size(); v++)
@@ -180,7 +199,7 @@ __attribute__((noinline)) static void scenario()
   sat_core &s = *new sat_core();
   lra_theory &th = *new lra_theory(s);
   const var x = th.new_var(), y = th.new_var();
-  cx[0] = 1; cy[0] = 0; cx[1] = 0; cy[1] = 1; ck[0] = ck[1] = 0; ntv = 2;
+  cx[0] = 1; cy[0] = 0; cx[1] = 0; cy[1] = 1; ck[0] = ck[1] = 0; ntv = 2; n_proot = 0;
   var zvar[4] = {0, 0, 0, 0}; bool zmade[4] = {false, false, false, false};
   auto ensure_z = [&](int t)
   {
@@ -322,6 +341,7 @@ __attribute__((noinline)) static void scenario()
       break;
     case 2:
       if (!s.root_level() || !s.prop_q.empty()) break;
+      if (n_proot < 16) proot[n_proot++] = index(l);
       if (!s.new_clause({l}) || !s.propagate()) { check_unsat(s, th, &l); alive = false; }
       else check_state(s, th);
       break;
